@@ -3,6 +3,7 @@ import ast
 
 from ..core import Property, AnalysisError, unparse, norm, walk_no_nested, fold, NotConst
 from ..cfg import build_cfg
+from ..sym import Interp, S, term, show, State
 from ..dfa import guards_of, ReachingDefs
 from ..query import resolved_filters, queries_in, parse_chain
 from .. import mut
@@ -403,6 +404,109 @@ def refresh_unconditional(ctx):
     n = run(ctx, [(W, lambda q: q.startswith('Wallet.'))],
             'an output whose transaction dropped back to 0 confirmations keeps its old count and is selected as an input with min_confirms >= 1')
     ctx.floor(n, 10, 'stores of reported values')
+
+
+@PROP.obligation('C07.shortfall-refused', canaries=[
+    mut.replace_expr(W, 'Wallet.transaction_create', 'transaction.change < 0 or transaction.fee < 0', 'transaction.fee < 0', 'negative change no longer refused'),
+])
+def shortfall_refused(ctx):
+    """Wallet.transaction_create, from the computation of the change to the first refusal: the statements are evaluated for inputs that
+    fall SHORT of outputs plus the requested fee by less than the dust limit, by more, and for inputs that cover them. A shortfall is
+    refused - it is not absorbed by the rule that folds a small change into the fee (the transaction would pay less fee than requested)."""
+    q = W + ':Wallet.transaction_create'
+    fn = ctx.repo.func(q)
+    body = fn.body
+    start = [i for i, x in enumerate(body) if isinstance(x, ast.If) and norm(x.test) == 'fee is False' and any('transaction.change' in norm(y) for y in ast.walk(x) if isinstance(y, ast.Assign))]
+    if len(start) != 1:
+        ctx.undecided('transaction_create: computation of the change not found at statement level (%d candidates)' % len(start))
+    # everything between the computation of the change and the block that creates the change outputs
+    stop = [i for i, x in enumerate(body) if i > start[0] and isinstance(x, ast.If) and norm(x.test) == 'transaction.change']
+    if not stop:
+        ctx.undecided('transaction_create: the block that creates the change outputs (`if transaction.change:`) was not found')
+    stmts = body[start[0]:stop[0]]
+    guard = [start[0]]
+    T = ('var', 'transaction')
+    n = 0
+    for tin, tout, fee, want in ((1000000, 999500, 1000, 'raise'), (1000000, 999999, 1000, 'raise'), (1000000, 1500000, 1000, 'raise'), (1000000, 900000, 1000, 'ok'), (1000000, 998900, 1000, 'ok')):
+        it = Interp(ctx.repo, W, self_cls='wallets:Wallet')
+        st = State(env={'self': S(('var', 'self')), 'transaction': S(T), 'fee': fee, 'amount_total_input': tin, 'amount_total_output': tout, 'fee_per_output': None,
+                        'number_of_change_outputs': 1})
+        for k, v in (('fee', fee), ('change', 0), ('size', 200), ('fee_per_kb', None)):
+            st.heap[('attr', T, k)] = v
+        st.heap[('attr', ('attr', T, 'network'), 'dust_amount')] = 546
+        st.heap[('attr', ('attr', T, 'network'), 'fee_min')] = 1000
+        it.frames.append([])
+        end = st
+        try:
+            for x in stmts:
+                end = it.exec_stmt(x, end)
+                if end is None:
+                    break
+        except AnalysisError as e:
+            ctx.undecided('transaction_create: change statements not evaluable for inputs %d / outputs %d / fee %d: %s' % (tin, tout, fee, str(e)[:100]))
+        n += 1
+        if end is None:
+            got = 'raise'
+        else:
+            got = 'ok'
+        gfee = None if end is None else end.heap.get(('attr', T, 'fee'))
+        gchg = None if end is None else end.heap.get(('attr', T, 'change'))
+        ctx.saw('inputs %d, outputs %d, requested fee %d -> %s' % (tin, tout, fee, 'refused' if end is None else 'continues with fee %s, change %s' % (show(term(gfee))[:20], show(term(gchg))[:20])))
+        if want == 'raise':
+            ctx.require(end is None, q, 'inputs of %d cannot cover outputs of %d plus the requested fee of %d, yet the method continues with fee %s and change %s' % (tin, tout, fee, show(term(gfee))[:20], show(term(gchg))[:20]),
+                        body[guard[0]], 'explicit inputs that fall short by less than the dust limit give a transaction that silently pays a lower fee than requested instead of failing')
+        else:
+            ctx.require(end is not None and isinstance(gfee, int) and isinstance(gchg, int) and gfee + gchg == tin - tout and gfee >= fee, q,
+                        'inputs of %d for outputs of %d and fee %d: %s' % (tin, tout, fee, 'refused' if end is None else 'fee %s, change %s' % (show(term(gfee))[:20], show(term(gchg))[:20])), body[start[0]])
+    ctx.floor(n, 5, 'funding scenarios')
+
+
+@PROP.obligation('C07.explicit-distinct', canaries=[
+    mut.replace_expr(W, 'Wallet.transaction_create', 'outpoint in outpoints', 'False', 'repeated outpoint no longer refused'),
+    mut.drop_stmt(W, 'Wallet.transaction_create', 'outpoints.append(outpoint)', 'outpoints seen are not remembered'),
+])
+def explicit_distinct(ctx):
+    """Explicit inputs (input_arr) are distinct outpoints: inside the loop that turns input_arr into transaction inputs a raise is guarded
+    by the membership of the current outpoint - an expression built from BOTH the previous txid and the output index - in a collection
+    that the same loop extends with every outpoint it has accepted (or in the inputs already added to the transaction). Without it the
+    same output is counted twice: value from nowhere."""
+    q = W + ':Wallet.transaction_create'
+    fn = ctx.repo.func(q)
+    loops = [n for n in ast.walk(fn) if isinstance(n, ast.For) and norm(n.iter) == 'input_arr']
+    if len(loops) != 1:
+        ctx.undecided('transaction_create: %d loops over input_arr, expected 1' % len(loops))
+    loop = loops[0]
+    rd = ReachingDefs(fn)
+
+    def mentions_outpoint(e):
+        names = set(x.id for x in ast.walk(e) if isinstance(x, ast.Name))
+        # follow one level of local definitions inside the loop (outpoint = (prev_txid, output_n))
+        for s_ in ast.walk(loop):
+            if isinstance(s_, ast.Assign) and isinstance(s_.targets[0], ast.Name) and s_.targets[0].id in names:
+                names |= set(x.id for x in ast.walk(s_.value) if isinstance(x, ast.Name))
+        return 'prev_txid' in names and 'output_n' in names
+    grown = set()
+    for c in ast.walk(loop):
+        if isinstance(c, ast.Call) and isinstance(c.func, ast.Attribute) and c.func.attr in ('append', 'add') and isinstance(c.func.value, ast.Name) and c.args and mentions_outpoint(c.args[0]):
+            grown.add(c.func.value.id)
+    ok = []
+    for n in ast.walk(loop):
+        if not (isinstance(n, ast.If) and any(isinstance(x, ast.Raise) for x in n.body)):
+            continue
+        for cmp_ in ast.walk(n.test):
+            if isinstance(cmp_, ast.Compare) and len(cmp_.ops) == 1 and isinstance(cmp_.ops[0], ast.In) and mentions_outpoint(cmp_.left):
+                coll = cmp_.comparators[0]
+                if (isinstance(coll, ast.Name) and coll.id in grown) or 'transaction.inputs' in norm(coll):
+                    ok.append(n)
+    ctx.saw('collections the loop extends with accepted outpoints: %s; refusals of a repeated outpoint: %s' % (sorted(grown), [norm(n.test)[:60] for n in ok]))
+    if not ok:
+        # the alternative idiom: one test over the whole list before the loop
+        pre = [n for n in ast.walk(fn) if isinstance(n, ast.If) and any(isinstance(x, ast.Raise) for x in n.body) and 'input_arr' in norm(n.test) and 'set(' in norm(n.test) and 'len(' in norm(n.test)]
+        if pre:
+            ctx.unsure('transaction_create: duplicates seem to be refused by `%s`; idiom not modelled' % norm(pre[0].test)[:80])
+            return
+        ctx.violate(q, 'nothing in the loop over input_arr refuses an outpoint that was already taken', loop,
+                    'send(..., input_arr=[(txid, 1, key, v), (txid, 1, key, v)]) builds a verified transaction that spends the same output twice and pays out its value twice')
 
 
 @PROP.obligation('C07.defaults')
